@@ -524,3 +524,46 @@ fire('C16', 'splitter-pallet-not-emitted', 'C16.R4', 'Splitter.worker',
 silent('C16', 'combiner-recipe-inline',
        lambda p: M.replace_node(p, N_CMB, 'Combiner.behaviour', lambda n: isinstance(n, ast.For) and ast.unparse(n.iter) == 'range(qty)',
                                 sub('range(qty)', 'range(self.target_quantity_of_each_item[edge_idx])')))
+
+# ============================================================================================ C17
+fire('C17', 'splitter-no-setup-stamp (defect D8 re-introduced)', 'C17.R3', 'Splitter.behaviour',
+     lambda p: M.delete_stmt(p, N_SPL, 'Splitter.behaviour', M.stmt_calling('self.update_state', 'SETUP_STATE')))
+fire('C17', 'combiner-no-setup-stamp (defect D8 re-introduced)', 'C17.R3', 'Combiner.behaviour',
+     lambda p: M.delete_stmt(p, N_CMB, 'Combiner.behaviour', M.stmt_calling('self.update_state', 'SETUP_STATE')))
+fire('C17', 'machine-setup-not-credited', 'C17.R3', 'Machine.behaviour',
+     lambda p: M.delete_stmt(p, N_MAC, 'Machine.behaviour', M.assign_to("self.stats['total_time_spent_in_states']['SETUP_STATE']")))
+fire('C17', 'source-first-stamp-after-wait', 'C17.R3', 'Source.behaviour',
+     lambda p: M.delete_stmt(p, N_SRC, 'Source.behaviour', M.stmt_calling('self.update_state', 'self.state')))
+fire('C17', 'node-update-state-credits-new-state', 'C17.R1', 'Node.update_state',
+     lambda p: M.chain(p, lambda q: M.delete_stmt(q, 'nodes/node.py', 'Node.update_state', M.assign_to('self.state')),
+                       lambda q: M.insert_before(q, 'nodes/node.py', 'Node.update_state', lambda n: isinstance(n, ast.If), 'self.state = new_state')))
+fire('C17', 'source-update-state-no-stamp', 'C17.R1', 'Source.update_state',
+     lambda p: M.delete_stmt(p, N_SRC, 'Source.update_state', M.assign_to("self.stats['last_state_change_time']")))
+fire('C17', 'splitter-update-state-overwrites-bucket', 'C17.R1', 'Splitter.update_state',
+     lambda p: M.replace_node(p, N_SPL, 'Splitter.update_state', M.assign_to("self.stats['total_time_spent_in_states'][self.state]"),
+                              "self.stats['total_time_spent_in_states'][self.state] = elapsed"))
+fire('C17', 'source-writes-state-directly', 'C17.R2', 'Source.behaviour',
+     lambda p: M.replace_node(p, N_SRC, 'Source.behaviour', M.stmt_calling('self.update_state', 'GENERATING_STATE'), 'self.state = "GENERATING_STATE"', which=0))
+fire('C17', 'machine-group1-overlap', 'C17.R4', 'group-1',
+     lambda p: M.replace_node(p, N_MAC, 'Machine.update_state_rep', M.if_testing('previous_state_rep[1] > 0 and previous_state_rep[0] == 0'),
+                              sub('previous_state_rep[1] > 0 and previous_state_rep[0] == 0', 'previous_state_rep[1] > 0')))
+fire('C17', 'machine-group2-gap', 'C17.R4', 'group-2',
+     lambda p: M.replace_node(p, N_MAC, 'Machine.update_state_rep', lambda n: isinstance(n, ast.If) and ast.unparse(n.test).replace(' ', '') == 'previous_state_rep[1]>0',
+                              sub('previous_state_rep[1] > 0', 'previous_state_rep[1] > 1')))
+fire('C17', 'machine-bucket-double-credit', 'C17.R4', 'partition',
+     lambda p: M.replace_node(p, N_MAC, 'Machine.update_state_rep', M.assign_to("self.stats['total_time_spent_in_states']['IDLE_STATE']"),
+                              "self.stats['total_time_spent_in_states']['IDLE_STATE'] += 2 * elapsed"))
+fire('C17', 'sink-final-credited-twice', 'C17.R5', 'Sink.update_final_state_time',
+     lambda p: M.insert_after(p, N_SNK, 'Sink.update_final_state_time', M.assign_to("self.stats['total_time_spent_in_states'][self.state]"),
+                              "self.stats['total_time_spent_in_states'][self.state] += duration"))
+fire('C17', 'source-final-from-zero', 'C17.R5', 'Source.update_final_state_time',
+     lambda p: M.replace_node(p, N_SRC, 'Source.update_final_state_time', M.assign_to('duration'), 'duration = simulation_end_time', which=1))
+fire('C17', 'machine-occupancy-change-before-credit', 'C17.R6', 'Machine._update_worker_occupancy',
+     lambda p: M.chain(p, lambda q: M.delete_stmt(q, N_MAC, 'Machine._update_worker_occupancy', M.assign_to('self.num_workers'), which=0),
+                       lambda q: M.insert_before(q, N_MAC, 'Machine._update_worker_occupancy', M.assign_to('self.time_per_work_occupancy[self.num_workers]'), 'self.num_workers += 1', which=0)))
+silent('C17', 'machine-group-guard-reordered',
+       lambda p: M.replace_node(p, N_MAC, 'Machine.update_state_rep', M.if_testing('previous_state_rep[1] > 0 and previous_state_rep[0] == 0'),
+                                sub('previous_state_rep[1] > 0 and previous_state_rep[0] == 0', 'previous_state_rep[0] == 0 and previous_state_rep[1] > 0')))
+silent('C17', 'source-update-state-augmented',
+       lambda p: M.replace_node(p, N_SRC, 'Source.update_state', M.assign_to("self.stats['total_time_spent_in_states'][self.state]"),
+                                "self.stats['total_time_spent_in_states'][self.state] += elapsed"))
